@@ -35,6 +35,7 @@ restores exactly the recorded server and expiry; C03.6 every new trait gets a
 fresh code bit and unknown traits are unsatisfiable. Fourth round: C03.4 every
 call of Cell.add_app queues the instance with the allocation given (shared
 with C06.5).
+Fifth round: C03.3 a requested state is stored on every path of Node.set_state and the override of Server forwards every request unless the server already is in that state (shared with C08.6); C03.4 the re-validation pass is found through helpers spliced in at a condition.
 Does NOT decide that a granted expiry never exceeds the reboot time over
 clock advances.
 """
